@@ -67,6 +67,15 @@ pub enum Mut {
     Outsider { sig: u16, seed: u64, stake: u64 },
     Sigma { sig: u16, kind: SigmaKind },
     CompensatePair { a: u16, b: u16, seed: u64 },
+    /// sigma_a + e_b*P, sigma_b - e_a*P for coefficient derivations that do not depend on the signatures
+    /// (0: Blake2b-128 over the verification keys + position, 1: over the message + position, 2: position only)
+    WeightedCompensate { a: u16, b: u16, seed: u64, derivation: u8 },
+    /// a second entry claiming the SAME signer slot as a genuine entry, placed before it: an unregistered key with a
+    /// genuine signature and a claimed stake, carrying otherwise unused indices; the batch path is left untouched
+    ShadowOutsider { sig: u16, seed: u64, stake: u64, nidx: u8 },
+    /// entry `sig` twice (second copy: same key and sigma, inflated stake, unused indices), its batch index twice,
+    /// every path value doubled in place
+    DoubledPath { sig: u16, stake: u64 },
     FlipNode { i: u16, byte: u8, bit: u8 },
     DropNode { i: u16 },
     DupNode { i: u16 },
@@ -168,7 +177,18 @@ pub fn build_pool(seed: u64, size: usize, max_n: usize, max_m: u64, threads: usi
 
 pub fn honest(spec: &WorldSpec, msg: &[u8], kraw: u16) -> Option<Honest> {
     let world = World::build(spec)?;
-    let sigs = world.sign_all(msg);
+    let mut sigs = world.sign_all(msg);
+    if spec.params.phi >= 1.0 && sigs.len() > 1 {
+        // with phi = 1 everybody wins every index and the clerk would keep a single signature: give each signer a
+        // disjoint residue class so that the aggregate has several entries (needed by the sigma-surgery mutations)
+        let n = sigs.len() as u64;
+        for (i, s) in sigs.iter_mut().enumerate() {
+            let own: Vec<u64> = s.get_concatenation_signature_indices().into_iter().filter(|j| j % n == i as u64).collect();
+            if !own.is_empty() {
+                s.set_concatenation_signature_indices(&own);
+            }
+        }
+    }
     let mut all: BTreeSet<u64> = BTreeSet::new();
     let mut won_by_vk = BTreeMap::new();
     for s in &sigs {
@@ -463,6 +483,79 @@ pub fn apply(v: &mut Value, m: &Mut, h: &Honest, msg: &[u8]) -> bool {
                 let Some(nw) = blsx::sigma_add(&cur, &d, neg) else { return false };
                 v["signatures"][p][0]["sigma"] = json_bytes(&nw);
             }
+            true
+        }
+        Mut::WeightedCompensate { a, b, seed, derivation } => {
+            if n < 2 {
+                return false;
+            }
+            let a = pos(*a);
+            let mut b = pos(*b);
+            if a == b {
+                b = (a + 1) % n;
+            }
+            use blake2::digest::consts::U16;
+            use blake2::{Blake2b, Digest};
+            let mut hs = Blake2b::<U16>::new();
+            match derivation % 3 {
+                0 => {
+                    for e in v["signatures"].as_array().unwrap() {
+                        hs.update(bytes_of(&e[1][0]).unwrap_or_default());
+                    }
+                }
+                1 => hs.update(h.world.msgp(msg)),
+                _ => {}
+            }
+            let coeff = |i: usize| -> Vec<u8> {
+                let mut hi = hs.clone();
+                hi.update(i.to_be_bytes());
+                hi.finalize().to_vec()
+            };
+            let (ea, eb) = (coeff(a), coeff(b));
+            let p = blsx::delta_point(*seed);
+            let (Some(pa), Some(pb)) = (blsx::p1_mult(&p, &eb, 128), blsx::p1_mult(&p, &ea, 128)) else { return false };
+            for (posn, d, neg) in [(a, pa, false), (b, pb, true)] {
+                let Some(cur) = bytes_of(&v["signatures"][posn][0]["sigma"]) else { return false };
+                let Ok(cur) = <[u8; 48]>::try_from(cur) else { return false };
+                let Some(nw) = blsx::sigma_add(&cur, &d, neg) else { return false };
+                v["signatures"][posn][0]["sigma"] = json_bytes(&nw);
+            }
+            true
+        }
+        Mut::ShadowOutsider { sig, seed, stake, nidx } => {
+            let s = pos(*sig);
+            let (sk, vk) = unregistered_key(*seed);
+            let msgp = h.world.msgp(msg);
+            let sigma = sk.sign(&msgp, &[], &[]).to_bytes();
+            let used: BTreeSet<u64> = v["signatures"].as_array().unwrap().iter().flat_map(|e| e[0]["indexes"].as_array().cloned().unwrap_or_default()).filter_map(|x| x.as_u64()).collect();
+            let free: Vec<u64> = (0..mm).filter(|i| !used.contains(i)).collect();
+            let take = (*nidx as usize % 4).min(free.len());
+            let cap = h.world.total_stake.saturating_mul(4).max(1);
+            let mut e = v["signatures"][s].clone();
+            e[0]["sigma"] = json_bytes(&sigma);
+            e[0]["indexes"] = Value::Array(free[..take].iter().map(|i| Value::from(*i)).collect());
+            e[1] = json!([json_bytes(&vk), 1 + *stake % cap]);
+            v["signatures"].as_array_mut().unwrap().insert(s, e);
+            true
+        }
+        Mut::DoubledPath { sig, stake } => {
+            let s = pos(*sig);
+            let used: BTreeSet<u64> = v["signatures"].as_array().unwrap().iter().flat_map(|e| e[0]["indexes"].as_array().cloned().unwrap_or_default()).filter_map(|x| x.as_u64()).collect();
+            let free: Vec<u64> = (0..mm).filter(|i| !used.contains(i)).collect();
+            let mut copy = v["signatures"][s].clone();
+            let cur = copy[1][1].as_u64().unwrap_or(0);
+            let cap = h.world.total_stake.saturating_mul(4).max(cur + 1);
+            copy[1][1] = Value::from((cur + 1 + *stake % cap).min(cap));
+            copy[0]["indexes"] = Value::Array(free.iter().take(3).map(|i| Value::from(*i)).collect());
+            v["signatures"].as_array_mut().unwrap().insert(s + 1, copy);
+            let bi = v["batch_proof"]["indices"].as_array_mut().unwrap();
+            if s < bi.len() {
+                let x = bi[s].clone();
+                bi.insert(s + 1, x);
+            }
+            let vals = v["batch_proof"]["values"].as_array_mut().unwrap();
+            let doubled: Vec<Value> = vals.iter().flat_map(|x| [x.clone(), x.clone()]).collect();
+            *vals = doubled;
             true
         }
         Mut::FlipNode { i, byte, bit } => {
@@ -883,6 +976,9 @@ fn mut_strategy() -> impl Strategy<Value = Mut> {
         3 => (r, prop_oneof![r.prop_map(SigmaKind::OtherParty), Just(SigmaKind::OtherMessage), (0u64..1000).prop_map(SigmaKind::PlusDelta)])
             .prop_map(|(sig, kind)| Mut::Sigma { sig, kind }),
         2 => (r, r, 0u64..1000).prop_map(|(a, b, seed)| Mut::CompensatePair { a, b, seed }),
+        2 => (r, r, 0u64..1000, 0u8..3).prop_map(|(a, b, seed, derivation)| Mut::WeightedCompensate { a, b, seed, derivation }),
+        3 => (r, 0u64..1000, any::<u64>(), any::<u8>()).prop_map(|(sig, seed, stake, nidx)| Mut::ShadowOutsider { sig, seed, stake, nidx }),
+        2 => (r, any::<u64>()).prop_map(|(sig, stake)| Mut::DoubledPath { sig, stake }),
         2 => (r, any::<u8>(), any::<u8>()).prop_map(|(i, byte, bit)| Mut::FlipNode { i, byte, bit }),
         1 => r.prop_map(|i| Mut::DropNode { i }),
         1 => r.prop_map(|i| Mut::DupNode { i }),
@@ -982,6 +1078,8 @@ pub fn run(args: &Args) -> i32 {
         .require_label("mut:InsertSpecial:M")
         .require_label("mut:Outsider")
         .require_label("mut:CompensatePair")
+        .require_label("mut:WeightedCompensate")
+        .require_label("mut:ShadowOutsider")
         .require_label("enc:Legacy")
         .require_label("batch:accepted")
         .require_label("batch:rejected");
@@ -995,6 +1093,31 @@ pub fn run(args: &Args) -> i32 {
         check.inconclusive("world pool too small".into());
         return check.finish();
     }
+    // systematic part: coefficient-cancelling sigma surgery needs phi = 1 (every index stays won) and >= 2 entries;
+    // dedicated worlds make sure every derivation is tried on every run
+    let mut sys = vec![];
+    for n in 2..=4usize {
+        for wseed in 0..2u64 {
+            let world = WorldSpec {
+                params: crate::fixtures::Params { m: 2 * n as u64, k: 1, phi: 1.0 },
+                parties: (0..n).map(|i| (9000 + wseed * 10 + i as u64, 5 + i as u64)).collect(),
+            };
+            for derivation in 0..3u8 {
+                for (a, b) in [(0u16, u16::MAX), (u16::MAX, 0u16)] {
+                    sys.push(Case {
+                        world: world.clone(),
+                        msg: vec![n as u8, wseed as u8],
+                        kraw: u16::MAX,
+                        muts: vec![Mut::WeightedCompensate { a, b, seed: wseed + derivation as u64, derivation }],
+                        enc: Enc::Json,
+                        ctx: Ctx::Same,
+                    });
+                }
+            }
+            sys.push(Case { world: world.clone(), msg: vec![n as u8, wseed as u8], kraw: u16::MAX, muts: vec![Mut::CompensatePair { a: 0, b: u16::MAX, seed: wseed }], enc: Enc::Cbor, ctx: Ctx::Same });
+        }
+    }
+    check.enumerate("systematic-sigma-surgery", sys.into_iter(), false, case_fn);
     check.section("mutations", || case_strategy(pool.clone()), t.pick(8000, 300_000), case_fn);
     check.section("batch", || batch_strategy(small_pool.clone()), t.pick(1500, 40_000), batch_case);
     check.finish()
